@@ -30,6 +30,28 @@ pub fn decode_dynamic(fmt: &str, t: &J, bytes: &[u8], pos: usize, le: bool, nfds
     let sig = sig_string(t);
     let fds = null_fds(nfds);
     let raws: Vec<i32> = fds.iter().map(|f| f.as_raw_fd()).collect();
+    if fmt == "dbus" && k(t) == "v" {
+        // A variant is decoded directly (no wrapper), so that nesting depths are exactly those of the case.
+        let c = ctx(fmt, le, pos);
+        let buf = bytes.to_vec();
+        let r = guarded(move || {
+            let data = Data::new_fds(buf, c, fds);
+            let r: zvariant::Result<(Value<'_>, usize)> = data.deserialize();
+            match r {
+                Ok((v, n)) => {
+                    let mut z = 0;
+                    let (tt, av) = abstract_of(&v, &mut z, Some(&FdIndex(&raws)));
+                    Ok((json!({"t":tt,"v":av}), n))
+                }
+                Err(e) => Err(e.to_string()),
+            }
+        });
+        return match r {
+            Err(p) => json!({"outcome":"panic","msg":p}),
+            Ok(Err(e)) => json!({"outcome":"err","msg":e}),
+            Ok(Ok((av, n))) => json!({"outcome":"ok","T":{"k":"v"},"v":av,"consumed":n}),
+        };
+    }
     let (buf, p0, hdr) = if fmt == "dbus" {
         let mut h = vec![sig.len() as u8];
         h.extend_from_slice(sig.as_bytes());
@@ -146,7 +168,9 @@ fn for_each_line(path: &str, out: &str, f: impl Fn(&J) -> J) {
         if line.trim().is_empty() {
             continue;
         }
-        let case: J = serde_json::from_str(&line).expect("case json");
+        let mut de = serde_json::Deserializer::from_str(&line);
+        de.disable_recursion_limit();
+        let case: J = serde::Deserialize::deserialize(&mut de).expect("case json");
         let o = f(&case);
         writeln!(w, "{}", serde_json::to_string(&o).unwrap()).unwrap();
     }
